@@ -243,4 +243,102 @@ def initList (ws : List Int) : List B :=
 /-- well-formed balancer state: the cursor points into the list (or the list is empty) -/
 def Wf (bs : List B) (next : Nat) : Prop := bs.length = 0 ∨ next < bs.length
 
+/-! ### BalanceGslb: the gslb mutex as state  (bfe_balance/bal_gslb/bal_gslb.go)
+
+  Every exported operation of BalanceGslb starts with `bal.lock.Lock()`.  `sync.Mutex` is not re-entrant and an
+  operation that finds it held by nobody-who-will-release-it blocks for ever, so the lock is modelled as a
+  Boolean of the state: an operation on a locked balancer is `hang`; otherwise it takes the lock, runs, and every
+  RETURN PATH of the body says whether the lock is released there — `Balance` and `Reload` use
+  `defer bal.lock.Unlock()` (all paths release), `SetGslbBasic`, `SetSlowStart`, `BackendInit`, `BackendReload`,
+  `Release` unlock explicitly before their single return.  The sub-cluster table kept by `Init` / `Reload`
+  (`subClusters` sorted by name, `totalWeight`, `single`, `avail`) is modelled too; what `Balance` picks is not
+  (that is the bal_slb part above plus a time-seeded random cross-retry), only THAT it returns.               -/
+
+structure GSub where
+  name : Nat            -- sub-cluster "sNN"; the list is kept sorted by name
+  weight : Int
+deriving Repr, DecidableEq
+
+structure G where
+  subs : List GSub
+  total : Int
+  single : Bool
+  avail : Nat
+  locked : Bool
+deriving Repr, DecidableEq
+
+inductive GRes where
+  | ret (what : String)   -- the operation returned (with this observable outcome)
+  | hang                  -- blocked on bal.lock for ever
+deriving Repr, DecidableEq
+
+def gInsert (x : GSub) : List GSub → List GSub
+  | [] => [x]
+  | y :: ys => if x.name ≤ y.name then x :: y :: ys else y :: gInsert x ys
+
+def gSort : List GSub → List GSub
+  | [] => []
+  | x :: xs => gInsert x (gSort xs)
+
+/-- `gslbConf.Check()`: sum of the positive weights must be > 0 -/
+def confTotal (conf : List (Nat × Int)) : Int :=
+  conf.foldl (fun a p => if p.2 > 0 then a + p.2 else a) 0
+
+/-- the scan `for index, sub := range list { if sub.weight > 0 {...} }`: (totalWeight, availableNum, lastAvailIndex) -/
+def gScan : List GSub → Nat → (Int × Nat × Nat) → (Int × Nat × Nat)
+  | [], _, acc => acc
+  | s :: rest, i, (t, n, last) =>
+    if s.weight > 0 then gScan rest (i + 1) (t + s.weight, n + 1, i) else gScan rest (i + 1) (t, n, last)
+
+def gLock (g : G) : G := { g with locked := true }
+def gUnlock (g : G) : G := { g with locked := false }
+
+/-- `Init` (no lock taken: the object is not shared yet); `none` = error "gslb total weight = 0" -/
+def gInit (conf : List (Nat × Int)) : Option G :=
+  let subs := gSort (conf.map fun p => ⟨p.1, p.2⟩)
+  let r := gScan subs 0 (0, 0, 0)
+  if confTotal conf = 0 then none
+  else some { subs := subs, total := r.1, single := r.2.1 == 1, avail := r.2.2, locked := false }
+
+/-- `Reload(gslbConf)`:  Lock; defer Unlock;  if Check fails { return err }  …rebuild…  return nil -/
+def gReload (conf : List (Nat × Int)) (g : G) : GRes × G :=
+  if g.locked then (.hang, g) else
+  let g := gLock g
+  if confTotal conf ≤ 0 then (.ret "rej", gUnlock g)                      -- early return: the deferred Unlock runs
+  else
+    let kept := g.subs.filterMap fun s => (conf.lookup s.name).map fun w => ({ s with weight := w } : GSub)
+    let added := (conf.filter fun p => !(g.subs.any fun s => s.name == p.1)).map fun p => (⟨p.1, p.2⟩ : GSub)
+    let subs := gSort (kept ++ added)
+    let r := gScan subs 0 (0, 0, 0)
+    let g := { g with subs := subs, total := r.1,
+                      single := r.2.1 == 1, avail := if r.2.1 == 1 then r.2.2 else g.avail }
+    (.ret "ok", gUnlock g)                                               -- final return: the deferred Unlock runs
+
+/-- `Balance(req)`: Lock; defer Unlock; … every return path releases; the outcome (a backend or one of the
+    errors) is not modelled -/
+def gBalance (g : G) : GRes × G :=
+  if g.locked then (.hang, g) else (.ret "ret", gUnlock (gLock g))
+
+/-- `BackendReload`, `BackendInit`, `SetGslbBasic`, `SetSlowStart`, `Release`: Lock; body without return; Unlock -/
+def gSimpleOp (g : G) : GRes × G :=
+  if g.locked then (.hang, g) else (.ret "ret", gUnlock (gLock g))
+
+inductive GOp where
+  | bal
+  | reload (conf : List (Nat × Int))
+  | other        -- BackendReload / SetGslbBasic / SetSlowStart
+deriving Repr
+
+def gStep (g : G) : GOp → GRes × G
+  | .bal => gBalance g
+  | .reload c => gReload c g
+  | .other => gSimpleOp g
+
+def gRun : List GOp → G → List GRes × G
+  | [], g => ([], g)
+  | o :: rest, g =>
+    let r := gStep g o
+    let q := gRun rest r.2
+    (r.1 :: q.1, q.2)
+
 end BfeVerif.C05
